@@ -325,3 +325,18 @@ Proof.
   intro H. apply in_run_query in H as [f [b [Hf [Hb [Hs [Hr _]]]]]]. exists f, b. repeat split; auto.
   unfold opens_file. apply orb_true_iff. right. apply existsb_exists. exists b. auto.
 Qed.
+
+(* ---------------------------------------------------------------- composition: flush then query *)
+Lemma flush_then_query tok re locs keys buffers q pb r :
+  (forall pb', In pb' buffers -> rows_ok keys (fst pb') (snd pb')) -> pre_in64 q ->
+  In pb buffers -> In r (snd pb) ->
+  row_matches tok re q r = true -> row_pre q r = true ->
+  In r (run_query tok re q [flush_file tok locs keys buffers]).
+Proof.
+  intros Hok H64 Hpb Hr Hm Hp.
+  apply (no_false_negatives tok re q [flush_file tok locs keys buffers] (flush_file tok locs keys buffers)
+           (make_block tok locs keys (fst pb) (snd pb)) r); auto.
+  - intros f [<-|[]]. apply flush_file_wf. exact Hok.
+  - left. reflexivity.
+  - simpl. apply in_map_iff. exists pb. auto.
+Qed.
